@@ -11,6 +11,9 @@ pub mod parameters;
 pub mod signing;
 pub mod verify;
 
+#[cfg(hbs_lms_verif)]
+pub use helper::get_tree_element;
+
 pub struct LmsKeyPair<H: HashChain> {
     pub private_key: LmsPrivateKey<H>,
     pub public_key: LmsPublicKey<H>,
